@@ -13,7 +13,8 @@ RULE = ("Cases: a frequency grid (geometric / linear / irregular, 4-60 points), 
         "updates (None, on-grid, off-grid, inverted, beyond the grid, equal ends; bounds drawn preferentially 1-3 samples "
         "from a local maximum; ranges passed as tuples or as one re-used list mutated in place) applied to HvsrCurve, "
         "HvsrTraditional, HvsrAzimuthal and HvsrDiffuseField objects built from the same curves. Non-trivial = some curve has "
-        ">= 2 local maxima and some bounded range excludes at least one of them; distinct by SHA-1 of the case.")
+        ">= 2 local maxima and some bounded range excludes at least one of them; distinct by SHA-1 of the case."
+        ' Grids are stored ascending or descending; limits include inf/1e20/1e300/0/-inf/1e-300 and near-collision variants of the previous limits.')
 ASSUMPTIONS = [
     "a bound between two samples may be snapped either way: a maximum must be reported only if it lies, with both neighbours, inside the narrowest admissible slice (MUST set); a reported peak must lie strictly inside the range in Hz (MAY set)",
     "a bound at or beyond the first/last frequency behaves as an open end on that side",
